@@ -136,7 +136,7 @@ func execC18Handler(c C18Case, bound time.Duration) (bool, error) {
 	if tr == "pipe" {
 		conn = env.fake.Connect()
 	} else {
-		for i := 0; i < 200; i++ {
+		for dl := time.Now().Add(bound); time.Now().Before(dl); {
 			conn, err = net.Dial("unix", env.sockPath)
 			if err == nil {
 				break
